@@ -105,6 +105,46 @@ let perl_res_s (r : (pitem list, perl_err) outcome) : string =
   | Err p -> "err Error " ^ out_str p   (* perl_err is extracted as its single field *)
   | Crash c -> "crash " ^ crash_name c
 
+(* python %-format *)
+let ptype_s = function TyInt -> "int" | TyFloat -> "float" | TyChr -> "chr" | TyStr -> "str" | TyObject -> "object" | TyNone -> "None"
+let seqarg_s = function SVarWidth -> "*w" | SVarPrec -> "*p" | SConv t -> ptype_s t
+let pywarn_s = function
+  | WFlag a -> "F" ^ String.concat "." (List.map ns a)
+  | WPrec -> "P" | WLength c -> "L" ^ ns c | WObsolete -> "O"
+let pyerr_s = function
+  | EError r -> "Error " ^ out_str r | EForbiddenKey -> "ForbiddenArgumentKey" | EMixture -> "ArgumentIndexingMixture"
+  | ETypeMismatch -> "ArgumentTypeMismatch" | EWidthRange -> "WidthRangeError" | EPrecRange -> "PrecisionRangeError"
+let fmtpy_res_s = function
+  | Ok sg ->
+    "ok S:" ^ String.concat "," (List.map seqarg_s sg.seq_arguments)
+    ^ " M:" ^ String.concat ";" (List.map (fun (k, ts) -> out_str k ^ "=" ^ String.concat "+" (List.map ptype_s ts)) sg.map_arguments)
+    ^ " W:" ^ String.concat ";" (List.map pywarn_s sg.warnings)
+  | Err e -> "err " ^ pyerr_s e
+  | Crash c -> "crash " ^ crash_name c
+let static_s = function SIncompleteKey -> "key" | SIncompleteFormat -> "format" | SWidthTooBig -> "width" | SPrecTooBig -> "prec"
+let event_s = function
+  | EvNeedMapping -> "NM" | EvLookup k -> "LK" ^ out_str k | EvStarWidth -> "SW" | EvStarPrec -> "SP"
+  | EvConv c -> "C" ^ ns c | EvPercent b -> if b then "P1" else "P0" | EvUnsupported c -> "U" ^ ns c
+  | EvStatic e -> "X" ^ static_s e
+let cres_s = function RSuccess -> "Success" | RValueError -> "ValueError" | RTypeError -> "TypeError"
+  | RKeyError -> "KeyError" | ROverflowError -> "OverflowError"
+(* values in prefix notation over the argument array: i<z> f n s<codes> T <n> v... D <n> s<key> v ... *)
+let rec arg_val (a : string array) (i : int) : pyval * int =
+  let t = a.(i) in
+  match t.[0] with
+  | 'i' -> (VInt (arg_z (String.sub t 1 (String.length t - 1))), i + 1)
+  | 'f' -> (VFloat, i + 1)
+  | 'n' -> (VNone, i + 1)
+  | 's' -> (VStr (arg_str t), i + 1)
+  | 'T' -> let n = arg_int a.(i + 1) in
+    let rec go k j acc = if k = 0 then (List.rev acc, j) else let (v, j') = arg_val a j in go (k - 1) j' (v :: acc) in
+    let (l, j) = go n (i + 2) [] in (VTuple l, j)
+  | 'D' -> let n = arg_int a.(i + 1) in
+    let rec go k j acc = if k = 0 then (List.rev acc, j) else
+        let key = arg_str a.(j) in let (v, j') = arg_val a (j + 1) in go (k - 1) j' ((key, v) :: acc) in
+    let (l, j) = go n (i + 2) [] in (VDict l, j)
+  | _ -> failwith ("bad value " ^ t)
+
 (* ---------- dispatch ---------- *)
 let handle (op : string) (a : string array) : string =
   match op with
@@ -139,6 +179,11 @@ let handle (op : string) (a : string array) : string =
      | Crash c -> "crash " ^ crash_name c)
   | "perlbrace" -> perl_res_s (fst (perl_parse_ucd (arg_str a.(0))))
   | "perlsteps" -> string_of_int (int_of_nat (snd (perl_parse_ucd (arg_str a.(0)))))
+  | "fmtpy" -> fmtpy_res_s (fmtpy_parse_gen (arg_str a.(0)))
+  | "cpysyn" -> let s = arg_str a.(0) in
+    (if cpy_syntax_error s then "syn=1" else "syn=0") ^ (if plain_percents s then " plain=1" else " plain=0")
+    ^ " " ^ String.concat " " (List.map event_s (cpy_events s))
+  | "cpyfmt" -> cres_s (cpy_format (arg_str a.(0)) (fst (arg_val a 1)))
   | _ -> "unknown-op " ^ op
 
 let () =
